@@ -295,6 +295,29 @@ func (c *Ctx) ruleReflect(rule string, fns map[*ssa.Function]bool) {
 					cnt["mapindex"]++
 					c.reflectMapIndex(rule, fn, call, cnt["mapindex"])
 				}
+				if m == "Convert" && len(call.Call.Args) == 2 && core.ReflectTypeOfStatic(call.Call.Args[1]) == nil {
+					// (f) the target type is only known at run time (another value's Type(), a schema's ReflectedType()):
+					// Convert panics when the value cannot be converted to it
+					cnt["dynconvert"]++
+					k := key(rule, c.M.Key(fn), sprintf("reflect.Value.Convert #%d to a type known only at run time", cnt["dynconvert"]))
+					path := c.reflPath(call.Call.Args[0], 0)
+					est := func(cond core.Cond) bool {
+						cc, ok := cond.V.(*ssa.Call)
+						if !ok || !cond.True || reflectValueMethod(cc) != "CanConvert" || len(cc.Call.Args) != 2 {
+							return false
+						}
+						return c.reflPath(cc.Call.Args[0], 0) == path && (cc.Call.Args[1] == call.Call.Args[1] || c.M.ValPath(cc.Call.Args[1]) == c.M.ValPath(call.Call.Args[1]))
+					}
+					switch {
+					case isRecoverScope(fn):
+						c.R.Ok(rule, k, c.M.InstrPos(call), "conversion to a run-time type", "the function recovers: the panic becomes the recovered error")
+					case core.MustHold(fn, est)[b]:
+						c.R.Ok(rule, k, c.M.InstrPos(call), "conversion to a run-time type", "on every path CanConvert() to the same type was found true")
+					default:
+						c.R.Bad(rule, k, c.M.InstrPos(call), "reflect.Value.Convert to a type known only at run time, without CanConvert",
+							"an `any` or one-of typed property reflects as interface{}; converting its zero value to the concrete type of the struct field it is mapped to panics ('value of type interface {} cannot be converted to type string') in Validate and Serialize")
+					}
+				}
 				if (m == "FieldByIndex" || m == "FieldByName") && len(call.Call.Args) == 2 && fromStructField(call.Call.Args[1]) {
 					// (e) struct-mapped objects: the field is named by a reflect.StructField descriptor (the field cache).
 					// Field access along an index path panics ("indirection through nil pointer to embedded struct") when a
